@@ -25,6 +25,9 @@ for k in a b c d; do gen_rsa 2048 $k; done
 gen_rsa 2048 e3 3
 gen_rsa 4096 a
 gen_rsa 4096 b
+# beyond the documented limits: 513-byte modulus (its signatures exceed BR_X509_BUFSIZE_SIG), 520-byte modulus (key + exponent exceed BR_X509_BUFSIZE_KEY)
+gen_rsa 4104 a
+gen_rsa 4160 a
 for k in a b c d; do gen_ec prime256v1 256 $k; done
 for k in a b c; do gen_ec secp384r1 384 $k; done
 for k in a b c; do gen_ec secp521r1 521 $k; done
